@@ -109,6 +109,9 @@ pub enum DocMut {
     InsertDim { field: u8, val: DimVal, before: bool },
     /// the data array split into two `data` events at position `at` (two partial messages)
     SplitData { at: usize },
+    /// the document delivered positionally, as a top-level JSON array of the field values in the
+    /// given rotation (what a format without field names, or a derive-style `visit_seq`, would see)
+    AsSeq { rot: usize },
 }
 
 #[derive(Clone, Debug, PartialEq, Eq, Serialize, Deserialize)]
@@ -748,6 +751,9 @@ fn apply_muts(events: &mut Vec<Event>, muts: &[DocMut], elem: ElemTy, stats: &mu
                     stats.dm("dim_restated");
                 }
             }
+            DocMut::AsSeq { .. } => {
+                stats.dm("as_sequence");
+            }
             DocMut::SplitData { at } => {
                 if let Some(i) = find(events, 2) {
                     if let Value::Array(a) = events[i].val.value() {
@@ -953,6 +959,35 @@ fn finish_delivery<T: CellTy>(t: &SerdeTrace, prop: &str, wire: Wire, expected: 
     }
     // ---- C19: damaged documents
     let nest = apply_muts(&mut events, &t.muts, t.elem, stats);
+    if let Some(DocMut::AsSeq { rot }) = t.muts.iter().find(|m| matches!(m, DocMut::AsSeq { .. })) {
+        // positional form: nothing says which value is which field, so only "no panic" and "an
+        // accepted array is valid" are demanded
+        let mut vals: Vec<String> = events.iter().map(|e| e.val.text()).collect();
+        if !vals.is_empty() {
+            let k = rot % vals.len();
+            vals.rotate_left(k);
+        }
+        let text = format!("[{}]", vals.join(","));
+        let de = match &t.de {
+            DeKind::SimMap { .. } => DeKind::FromStr,
+            other => other.clone(),
+        };
+        let (d, _): (Delivered<T>, DeliveryInfo) = deliver_text(text.as_bytes(), &de, stats);
+        return match d {
+            Delivered::Panic(p) => Err(v("panic", format!("deserialising a positional document panicked: {}", p))),
+            Delivered::Err(_) => {
+                stats.oc("positional_rejected");
+                Ok(true)
+            }
+            Delivered::Arr(a) => match shape_ok(&a) {
+                Err(m) => Err(v("accepted_invalid", m)),
+                Ok(()) => {
+                    stats.oc("positional_accepted_valid");
+                    Ok(true)
+                }
+            },
+        };
+    }
     if t.byte_muts.is_empty() {
         let (d, info, label): (Delivered<T>, DeliveryInfo, String) = match &t.de {
             DeKind::SimMap { keys, error_at } => {
@@ -1218,7 +1253,7 @@ pub fn gen_trace(rng: &mut Rng, prop: &str, thorough: bool) -> SerdeTrace {
         }
         let n_muts = if byte_muts.is_empty() { rng.range(1, 3) } else { rng.below(2) };
         for _ in 0..n_muts {
-            muts.push(match rng.below(16) {
+            muts.push(match rng.below(17) {
                 0 => DocMut::Drop { field: rng.below(3) as u8 },
                 1 => DocMut::Dup { field: rng.below(3) as u8, different: rng.chance(1, 2), at_end: rng.chance(1, 2) },
                 2 => DocMut::Reorder { rot: rng.below(6) },
@@ -1242,6 +1277,7 @@ pub fn gen_trace(rng: &mut Rng, prop: &str, thorough: bool) -> SerdeTrace {
                 12 => DocMut::Nest,
                 13 => DocMut::SetDim { field: rng.below(2) as u8, val: DimVal::Zero },
                 14 => DocMut::InsertDim { field: rng.below(2) as u8, val: gen_dimval(rng), before: rng.chance(2, 3) },
+                15 => DocMut::AsSeq { rot: rng.below(3) },
                 _ => DocMut::SplitData { at: rng.below(64) },
             });
         }
